@@ -410,6 +410,9 @@ func (bc *boundsCtx) nonNegExpr(e ast.Expr, facts []cfgx.Fact) bool {
 			if bc.nonNegative(v) {
 				return true
 			}
+			if bc.clampedNonNeg(v, x) {
+				return true
+			}
 			if d, ok := core.SingleDef(bc.info, bc.f.Root().Body, v); ok && d.Index < 0 {
 				return bc.nonNegExpr(d.Rhs, bc.g.FactsAt(bc.g.PointOf(d.Stmt)))
 			}
@@ -517,4 +520,41 @@ func (bc *boundsCtx) aliasOf(base ast.Expr) (ast.Expr, ast.Node) {
 		return ix, d.Stmt
 	}
 	return nil, nil
+}
+
+// clampedNonNeg: the use is preceded by the clamp `if v < 0 { v = C }` (C >= 0) with no assignment of v in between.
+func (bc *boundsCtx) clampedNonNeg(v *types.Var, use ast.Node) bool {
+	var clamp *ast.IfStmt
+	ast.Inspect(bc.f.Root().Body, func(n ast.Node) bool {
+		ifs, ok := n.(*ast.IfStmt)
+		if !ok || ifs.Else != nil || ifs.Init != nil || len(ifs.Body.List) != 1 || ifs.End() > use.Pos() {
+			return true
+		}
+		x, op, c, isCmp := cmpConst(bc.info, ifs.Cond)
+		if !isCmp || core.VarOf(bc.info, x) != v || !((op == token.LSS && c == 0) || (op == token.LEQ && c == -1)) {
+			return true
+		}
+		as, isAs := ifs.Body.List[0].(*ast.AssignStmt)
+		if !isAs || as.Tok != token.ASSIGN || len(as.Lhs) != 1 || len(as.Rhs) != 1 || core.VarOf(bc.info, as.Lhs[0]) != v {
+			return true
+		}
+		if k, isC := core.ConstInt(bc.info, as.Rhs[0]); isC && k >= 0 {
+			clamp = ifs
+		}
+		return true
+	})
+	if clamp == nil {
+		return false
+	}
+	if !bc.g.Dominates(bc.g.PointOf(clamp.Cond), bc.g.PointOf(use)) {
+		return false
+	}
+	for _, d := range core.DefsOf(bc.info, bc.f.Root().Body, v) {
+		if d.Stmt.Pos() > clamp.End() && d.Stmt.Pos() < use.Pos() {
+			return false
+		}
+		// an assignment later in an enclosing loop can reach the use without passing the clamp again only if the clamp
+		// does not dominate the use, which was checked
+	}
+	return true
 }
